@@ -62,6 +62,10 @@ type Doc struct {
 	// ImplicitXML: when true every element implicitly declares the xml prefix
 	// (this is what the XML adaptor does); affects Finish only.
 	ImplicitXML bool
+	// RepeatDecls: the event stream reports every namespace declaration twice in
+	// a row (the XML adaptor does that for default-namespace declarations); the
+	// tree must be the same - the second report replaces the first in place.
+	RepeatDecls bool
 }
 
 func NewDoc() *Doc {
@@ -390,7 +394,7 @@ func (d *Doc) Canon() string {
 
 // Clone deep-copies a document (without NS nodes; call Finish afterwards).
 func (d *Doc) Clone() *Doc {
-	nd := &Doc{ImplicitXML: d.ImplicitXML}
+	nd := &Doc{ImplicitXML: d.ImplicitXML, RepeatDecls: d.RepeatDecls}
 	var cp func(n *Node) *Node
 	cp = func(n *Node) *Node {
 		m := &Node{Kind: n.Kind, Space: n.Space, Local: n.Local, Value: n.Value, Prefix: n.Prefix}
